@@ -1092,7 +1092,28 @@ def bit_table(res, rng):
         res.count("bit_tables")
 
 
+def check_visited_kernels(res, rng, n_cases):
+    """the TRANSLATED has_been_visited / mark_visited (Gen/Kernels.lean, run by the driver) against the numba kernels, bit for
+    bit, on random byte tables (incl. 0xff bytes, first / last bit of the table); translator validation"""
+    lines, want = [], []
+    for c_ in range(n_cases):
+        m = int(rng.choice([1, 2, 3, 8, 33]))
+        table = rng.choice(np.array([0, 1, 2, 4, 128, 255, 170, 85], dtype=np.uint8), m).astype(np.uint8)
+        for cand in {0, 8 * m - 1, int(rng.integers(0, 8 * m)), int(rng.integers(0, 8 * m))}:
+            lines.append("gk_visited %d %s %d" % (m, ints_row(table), cand))
+            want.append(("has_been_visited", "1" if utils.has_been_visited(table, np.int32(cand)) else "0"))
+            t2 = table.copy()
+            utils.mark_visited(t2, np.int32(cand))
+            lines.append("gk_mark %d %s %d" % (m, ints_row(table), cand))
+            want.append(("mark_visited", ints_row(t2)))
+    for line, (name, w), got in zip(lines, want, run_driver(lines)):
+        res.count("translated:" + name)
+        if got != w:
+            res.corr_fail("translated-kernel:" + name, {"cmd": line}, got, w)
+
+
 def run(res, tier, seed, search):
+    check_visited_kernels(res, np.random.default_rng(seed + 20202), 60 if tier == "quick" else 600)
     rng = np.random.default_rng(seed + 202)
     rng_s = np.random.default_rng(seed + 202202)    # the sparse kernel-level cases: own stream, the other parts keep theirs
     rng_b = np.random.default_rng(seed + 20220202)  # multi-row / parallel batches: own streams again (the single-row cases,
